@@ -142,6 +142,15 @@ def run(ck):
     n = 1500 if T else 120
     ck.stream("random", [rand_case(rng, T or i % 10 == 0) for i in range(n)], "C20_run", "C20", "C20_ok",
               nontrivial=nontrivial, sig=sig, timeout=2400)
+    # simultaneous first requests: n requesters, delays (ms) at the point between swap and retire in media.Regist
+    conc = []
+    for n in (2, 3, 4) if T else (2, 3):
+        for tracks in (1, 3):
+            conc.append([n, tracks, [0] * n])
+            for _ in range(12 if T else 2):
+                conc.append([n, tracks, [rng.choice([0, 0, 1, 3, 8]) for _ in range(n)]])
+    ck.stream("concurrent", conc, "C20conc_run", "C20conc", "C20conc_ok", nontrivial=lambda c: c[0] >= 2,
+              sig=lambda c, e, o: "pull-concurrent", timeout=900)
     return ck.finish(
         rule="scripts for a fake RTSP camera on 127.0.0.1 (reply kind per request: ok, 401 Basic, 401 Digest, 401 unknown scheme, "
              "4xx, 5xx, malformed, silence until the time-out, reset, EOF), requests through media.GetOrCreate with the route "
@@ -150,7 +159,8 @@ def run(ck):
              "combination at every step and challenges at two different steps, followed by a second request that must pull "
              "afresh; (config) 0-2 tracks x URL path forms (empty, trailing slash) x keep-alive, unusable SDP bodies, unrouted "
              "path, scripts that end after 0..n steps; (play) ending/non-ending events at offsets of the play phase; (random) "
-             "1-3 rounds of random scripts of length 0..16. Compared per round: requester's answer, request sequence read by "
+             "1-3 rounds of random scripts of length 0..16; (concurrent) 2-4 requesters released together against an all-ok camera, with "
+             "delays injected between swap and retire in media.Regist, observed after a packet on every connection. Compared per round: requester's answer, request sequence read by "
              "the camera (method, Authorization scheme verified against the route URL's credentials incl. the MD5 variant, "
              "Session echo), socket/registry/stats.RtspConns/goroutine state when the requester has its answer and after the "
              "script has ended, packets delivered to a consumer, consumer closed. non-trivial = a script that deviates from "
